@@ -71,4 +71,11 @@ theorem head_cache_encapsulated : lcacheDirect = ["WithMaxReads: c.lcache.maxrea
     formatted by their log calls; none of its methods assigns to it (no lazily filled or memoised field). -/
 theorem plan_immutable : planWrites = [] := by decide +kernel
 
+/-- **client_config_immutable**: the fields of a `jrpc2.Client` itself (its URLs, the websocket URL, the poll
+    duration, the debug switch) are read without a lock by every task goroutine sharing the client and by the
+    background head feed; after construction (`New`, the `With…` builders) no method assigns any of them — so
+    those reads race with nothing. (Regenerated from the source: e.g. a listener that clears `c.wsurl` to fall
+    back to polling shows up as an entry.) -/
+theorem client_config_immutable : clientWrites = [] := by decide +kernel
+
 end Shovel.Race
